@@ -142,6 +142,22 @@ Section Facts.
   Lemma last_snoc {T} (l : list T) a d : last (l ++ [a]) d = a.
   Proof. induction l; simpl; auto. destruct (l ++ [a]) eqn:E; auto. destruct l; discriminate. Qed.
 
+  Lemma table_slice_offsets maxd nSets row c (ds : list String.string) (env : denv) :
+    voffsets (vslice {| wstart := row * nSets;
+                        wstr := strides (map (dlookup maxd) ds ++ [nSets]);
+                        wdims := map (dlookup maxd) ds ++ [nSets] |}
+                     (map (fun _ => 0) ds ++ [c]) (map (dlookup env) ds) None)
+    = map (fun r => r * nSets + c)
+          (map (fun ix => row + dot ix (strides (map (dlookup maxd) ds)))
+               (indices (map (dlookup env) ds))).
+  Proof.
+    rewrite map_map. unfold voffsets, vslice. cbn [wstart wstr wdims]. apply map_ext_in. intros ix Hix.
+    apply indices_length in Hix. rewrite map_length in Hix.
+    rewrite strides_app_last.
+    rewrite dot_zeros_last by (rewrite strides_length, map_length; reflexivity).
+    rewrite dot_scaled by (rewrite strides_length, map_length; exact Hix). lia.
+  Qed.
+
   Lemma gomod_ok i n : 1 <= n -> gomod i n = Some (i mod n).
   Proof. intros H. unfold gomod. destruct (Nat.eqb_spec n 0); [lia|reflexivity]. Qed.
 
@@ -319,7 +335,7 @@ Section Facts.
       rewrite run_bind.
       rewrite (read_params_run sh nP nSets eq_refl wf_nSets0 maxd m i (s_params sp) 0 []) by exact wf_params0.
       fold (cell_poffs m i). fold (cell_cp m i).
-      rewrite run_bind.
+      unfold cell_body. rewrite run_bind.
       (* reading the states *)
       assert (Hst : run_prog
         match s_states sp with
